@@ -1,6 +1,8 @@
 import Firebolt.Model.Recovery
 import Firebolt.Generated.Source
 import Firebolt.Expected.Source
+import Firebolt.Generated.Closure
+import Firebolt.Expected.Closure
 /-!
 # C07 — Parallel recovery emits the whole requested window and nothing outside it
 
@@ -243,5 +245,9 @@ theorem source_partitionAssignmentsChanged : GeneratedSrc.partitionAssignmentsCh
 /-! ### functions the model's assumptions rest on (construction, wiring, surrounding calls) are unchanged -/
 theorem source_newRecoveryTracker : GeneratedSrc.newRecoveryTracker = ExpectedSrc.newRecoveryTracker := by rfl
 theorem source_rcShutdown : GeneratedSrc.rcShutdown = ExpectedSrc.rcShutdown := by rfl
+
+/-! ### influence closure: the pinned functions, and every function of the repository that writes a struct field or package
+variable they read, are unchanged (digests regenerated from /repo on every run; a difference names the functions) -/
+theorem closure_unchanged : GeneratedClo.C07 = ExpectedClo.C07 := by rfl
 
 end Firebolt.C07
